@@ -3,6 +3,7 @@ package actor
 import (
 	"fmt"
 	"runtime/debug"
+	"sync/atomic"
 
 	"github.com/google/uuid"
 	"github.com/kercylan98/vivid"
@@ -135,6 +136,13 @@ func (c *supervisionContext) applyDecision(ctx *Context, targets vivid.ActorRefs
 		c.broadcastAllTargets(ctx, true, messages.CommandResumeMailbox.Build())
 
 	case decision.IsEscalate():
+		// 监督者自身已在终止过程中：它的子 Actor 均已收到终止消息，再向上级上报已无意义，
+		// 上级对一个正在终止的 Actor 做出的任何决策都不会生效，而被挂起的目标将永远无法处理排队中的（毒杀）终止消息。
+		// 此时恢复目标邮箱，让终止流程继续进行
+		if atomic.LoadInt32(&ctx.state) != running {
+			c.broadcastAllTargets(ctx, true, messages.CommandResumeMailbox.Build())
+			return
+		}
 		// 升级后视为自身的故障，但是携带了下级故障信息
 		// 挂起当前 Actor 的消息处理并且向父级 Actor 发送监督上下文以触发父级 Actor 的监督策略
 		ctx.mailbox.Pause()
